@@ -113,6 +113,7 @@ def install(I):
                 xt = to_term(x)
                 kq = z3.Int('k!bis%d' % I_.fresh_n)
                 I_.assume(z3.And(p.t >= 0, p.t <= seq.n))
+                I_.ghost['bisect'] = p
                 if left:
                     I_.assume(z3.ForAll([kq], z3.Implies(z3.And(kq >= 0, kq < p.t), z3.Select(seq.arr, kq) < xt)))
                     I_.assume(z3.ForAll([kq], z3.Implies(z3.And(kq >= p.t, kq < seq.n), z3.Select(seq.arr, kq) >= xt)))
@@ -386,6 +387,7 @@ def install_spec(I):
         h, s_, v = hsv_def(r, g, b)
         return mk(z3.And(HSV['h'](r, g, b) == h, HSV['s'](r, g, b) == s_, HSV['v'](r, g, b) == v), 'bool')
     reg('reveal_hsv', reveal_hsv)
+    S['ghost_bisect'] = Builtin('spec.ghost_bisect', lambda I_, a, k: I_.ghost.get('bisect'))
     reg('sent_frac', lambda f: mk(_round_clamp(_r(f) * 65535, 65535), 'int'))
 
 
